@@ -275,6 +275,11 @@ def compare_static(ctx, interp, case, res, fail, max_ops=4):
         return
     ctx.tag("c07_checked")
     mo = pl.read(res["out"])
+    amag = abs_magnitudes(interp, case.mb, data, ctx)
+    types = {t.type for sg in mo.subgraphs for t in sg.tensors}
+    # relative term of the bound per (activation bits, weight bits); measured on the unchanged tree over several thousand cases the
+    # 99th percentile of (error - 8 steps) / (|terms| magnitude x ops) is 0.01 (w8) / 0.03 (w4): the constants leave a factor 4-8
+    crel = {(8, 8): 0.08, (16, 8): 0.05, (8, 4): 0.2, (16, 4): 0.1}[(16 if TT.INT16 in types else 8, 4 if TT.INT4 in types else 8)]
     for sig in a[1]:
         sd = [x for x in (mo.signatureDefs or []) if x.signatureKey.decode() == sig]
         for ra, rb in zip(a[1][sig], b[1][sig]):
@@ -291,14 +296,20 @@ def compare_static(ctx, interp, case, res, fail, max_ops=4):
                         if tm.name.decode() == k:
                             t = mo.subgraphs[sd[0].subgraphIndex].tensors[tm.tensorIndex]
                             qt = pl.quant_tuple(t)
+                            if not qt:   # float output: the step is that of the quantized tensor behind the DEQUANTIZE
+                                sgq = mo.subgraphs[sd[0].subgraphIndex]
+                                prod = next((o for o in sgq.operators if tm.tensorIndex in list(o.outputs)), None)
+                                if prod is not None and len(prod.inputs) == 1 and pl.BO_NAME.get(mo.operatorCodes[prod.opcodeIndex].builtinCode) == "DEQUANTIZE":
+                                    qt = pl.quant_tuple(sgq.tensors[prod.inputs[0]])
                             if qt:
                                 step = float.fromhex(qt["scale"][0])
-                mag = float(np.max(np.abs(yb)))
-                tol = 8 * step + 0.2 * mag * nops + 5e-2
+                mag = max(float(np.max(np.abs(yb))), amag.get((sig, k), 0.0))
+                tol = 8 * step + crel * mag * nops + 1e-3
                 off = ya.shape != yb.shape or np.max(np.abs(ya - yb)) > tol
-                const = np.ptp(yb) > 0.5 * mag and mag > 1e-2 and yb.size > 1 and np.ptp(ya) == 0
+                ymag = float(np.max(np.abs(yb)))
+                const = np.ptp(yb) > 0.5 * ymag and ymag > 1e-2 and np.ptp(yb) > 16 * step and yb.size > 1 and np.ptp(ya) == 0
                 if off or const:
-                    cls = localise(interp, res["out"], case.mb, data, lambda mag_: 0.2 * mag_ + 5e-2, ctx)
+                    cls = localise(interp, res["out"], case.mb, data, lambda mag_: max(crel * mag_, 0.5 * tol) + 1e-3, ctx)
                     if cls is None:   # deviation below the localisation tolerance everywhere: blame the output's own producer
                         cls = producer_class(res["out"], sig, k)
                     if const:
